@@ -12,7 +12,7 @@ from vf.ref import scale as R
 RULE = ("cases = (binary|ternary configuration: alpha in {None, 0.5, 1, 2, "
         "'auto', 'auto_po2'}, use_01, threshold, number_of_unrolls 1..5, "
         "scale_axis None/int/list, elements_per_scale int/list dividing the "
-        "axes, min/max_po2_exponent) x (float32 tensor of rank 1..4, <= 96 "
+        "axes, min/max_po2_exponent) x (float32 tensor of rank 1..4, <= 96 (thorough: 256) "
         "elements, built group by group: normal / all-zero / single non-zero "
         "/ constant / sign-aligned / 2^-6 and 2^+6 relative magnitude, overall "
         "magnitude 2^-20..2^20) drawn by Hypothesis; a quarter of the auto "
@@ -437,10 +437,11 @@ def run(ctx):
   if abs(float(tf.keras.backend.epsilon()) - EPS) > 1e-12:
     raise core.HarnessError("K.epsilon() is %r, reference assumes 1e-7" %
                             tf.keras.backend.epsilon())
+  G.configure(ctx.tier)
   for case in ctx.shard(edge_cases()):
     for sc, sig, d in oracle(ctx, case):
       ctx.fail(sc, sig, case, d)
-  n = (6000 if ctx.quick else 160000) // ctx.n + 1
+  n = (24000 if ctx.quick else 160000) // ctx.n + 1
   core.hyp_run(ctx, G.c04_case(), lambda c: oracle(ctx, c), n, name="c04")
 
 
